@@ -268,6 +268,14 @@ theorem concurrent_final (lg : Logger) (n : Nat) (prog : Nat → List (Env × Ca
       rw [hp] at this; cases this
   simpa [base] using inv.free j hfree
 
+/-- (b) Each thread's lines keep their order, every schedule: in every handler's history
+(= the order of its output groups, `concurrent_lines_whole`) the calls of one thread appear
+with strictly increasing call index — in particular no call appears twice. -/
+theorem concurrent_per_thread_order (lg : Logger) (n : Nat) (prog : Nat → List (Env × Call)) (s : SState)
+    (hr : Reach sstep (sinit .fixed lg n prog) s) (j : Nat) :
+    (s.hist j).Pairwise (fun a b => a.tid = b.tid → a.seq < b.seq) :=
+  (sord_reach .fixed lg n prog s hr).ord j
+
 /-! ## (d) the asynchronous logger -/
 
 /-- (d) Allocation accounting at every moment, every schedule, any capacity, any number of
@@ -288,6 +296,18 @@ theorem async_fifo (lg : Logger) (slots n : Nat) (prog : Nat → List (Env × Ca
     (hr : Reach astep (ainit .fixed lg slots n prog) s) :
     s.accepted = s.written ++ heldList s.wpc ++ qmsgs s.queue :=
   (ainv_reach lg slots n prog s hr).fifo
+
+/-- (d)/(b) Each producer's messages keep their order through the asynchronous logger,
+every schedule: in the order of acceptance — which is the order of writing (`async_fifo`) —
+the calls of one producer have strictly increasing call index (so none is written twice). -/
+theorem async_per_producer_order (lg : Logger) (slots n : Nat) (prog : Nat → List (Env × Call))
+    (s : AState) (hr : Reach astep (ainit .fixed lg slots n prog) s) :
+    s.accepted.Pairwise (fun a b => a.src = b.src → a.seq < b.seq) ∧
+    s.written.Pairwise (fun a b => a.src = b.src → a.seq < b.seq) := by
+  have h := (aord_reach .fixed lg slots n prog s hr).ordA
+  refine ⟨h, ?_⟩
+  rw [async_fifo lg slots n prog s hr, List.append_assoc] at h
+  exact (List.pairwise_append.mp h).1
 
 /-- (d) The asynchronous logger emits the same lines as the synchronous one: at every
 moment the handlers are exactly what `muggle_logger_write` — the synchronous dispatch —
